@@ -262,7 +262,12 @@ _G = _pydt.datetime(2020, 1, 1, tzinfo=_pydt.timezone.utc)
 
 
 def route_descriptors():
-    from flow.record import RecordDescriptor
+    from flow.record import RecordDescriptor, fieldtypes
+    global _G
+    if not isinstance(_G, fieldtypes.datetime):
+        # already of the field type: passing it as _generated runs no conversion, so the only conversion observed
+        # on a route is the one of the timestamp that enters by that route
+        _G = fieldtypes.datetime(_G)
     return dict(
         D=RecordDescriptor("verif/c13", [("varint", "i"), ("datetime", "ts")]),
         O=RecordDescriptor("verif/c13other", [("string", "note")]),
